@@ -212,7 +212,14 @@ impl<'a> Parser<'a> {
 
     /// Peek at the next n characters.
     fn peek_str(&self, n: usize) -> &str {
-        let end = (self.pos + n).min(self.input.len());
+        let mut end = (self.pos + n).min(self.input.len());
+        // `n` counts bytes, and every caller compares against an ASCII
+        // operator. Never split a multi-byte character: back off to the
+        // previous boundary (`self.pos` always is one) instead of panicking
+        // on non-ASCII program text such as `1 中`.
+        while !self.input.is_char_boundary(end) {
+            end -= 1;
+        }
         &self.input[self.pos..end]
     }
 
